@@ -88,7 +88,8 @@ theorem netsim_blocked_step_noop (j : Job) (s : State) (b r : Nat) (h : ¬ enabl
 
 /-- **C04 (a measure decreases on every real step).** `mu` = remaining source elements + pending
     sends + elements in flight, each weighted by the number of steps it can still cause downstream
-    (`W b = 1 + Σ_{c downstream of b} replicas c · (1 + W c)`). -/
+    (`W b = 1 + 2 · Σ_{c downstream of b} replicas c · (1 + W c)`; the factor 2: one received
+    element can make `Start` yield two, a stashed watermark and the element). -/
 theorem netsim_measure_decreases (j : Job) (wf : j.WF) (s : State) (h : Reachable j s) (b r : Nat)
     (he : enabled j s b r) : mu j (step j s b r) < mu j s :=
   mu_step wf (inv_reachable wf h) he
